@@ -42,6 +42,8 @@ public:
 
 
 def specs_for(ctx, idx, wd):
+    if idx == "bigunion":
+        return W.base_specs(ctx.quick, idx)
     i = idx if isinstance(idx, int) else 0
     c = [dict(lang="c", name="c_any", flags=[]),
          dict(lang="c", name="c_little", flags=["--target-endianness", "little"]),
@@ -290,6 +292,7 @@ def run(ctx):
     sets = W.make_sets(ctx, ctx.pick(2, 20), "c03")
     for item in sets:
         run_set(ctx, item, ctx.pick(9, 40), ctx.pick(3, 16))
+    run_set(ctx, W.big_union_set(ctx), ctx.pick(9, 40), ctx.pick(3, 16))
     ctx.sample({"relation": "ser(des(ser(v))) == ser(v)", "code bases": "c_any, c_little, cpp14, cpp17pmr, py", "joined by": "(type index, vector index)"})
     ctx.require("roundtrip_ok", 1000)
     ctx.require("redecode_ok", 500)
